@@ -32,7 +32,7 @@ T == ndJsonDeserialize(IOEnv.TRACE)
 Ev == T[l]
 Is(e) == l <= Len(T) /\ T[l].e = e
 
-ObjNames == {"A", "B", "C", "D", "E", "F"}
+ObjNames == {"A", "B", "C", "D", "E", "F", "G", "H"}
 NoCirc == [cells |-> <<>>, nets |-> <<>>, rows |-> <<>>]
 Idle == [active |-> FALSE, obj |-> "", stage |-> "", entry |-> NoCirc, ncb |-> 0, firstDet |-> NoCirc,
          hasDet |-> FALSE, lastDet |-> NoCirc, lastWl |-> 0, lastLB |-> NoCirc, lastUB |-> NoCirc, hasLB |-> FALSE, hasUB |-> FALSE,
